@@ -34,6 +34,7 @@ type attack struct {
 	Mut       refcbor.Mutation `json:"mut,omitempty"`
 	Signer    string           `json:"signer,omitempty"` // stranger mfg earlier device otherkind owner
 	Swap      bool             `json:"swap,omitempty"`   // advertise the signer's key as CUPHOwnerPubKey
+	Tail      int              `json:"tail,omitempty"` // takeover: entries appended by the attacker
 	EntriesOp string           `json:"entries_op,omitempty"`
 	To1dOp    string           `json:"to1d_op,omitempty"`
 	Transport string           `json:"transport,omitempty"`
@@ -414,6 +415,20 @@ func evalCase(d caseDesc) ev.Result {
 					return nil
 				}
 				return &deploy.Action{Body: forge61(p, f)}
+			case "takeover":
+				// entry a.Entry keeps its genuine hashes but names the stranger's key and is signed by a.Signer's key
+				// (anybody but the key entry-1 names); a.Tail further entries are honestly built by the stranger;
+				// ProveOVHdr is signed by the stranger, advertises its key and announces the forged entry count
+				sb, sbkind := attackKey(d.Cfg, w, d.Chain, a.Signer)
+				atk, akind := attackKey(d.Cfg, w, d.Chain, "stranger")
+				genuine := entryItems(w.voucher)
+				forged, err := wire.TakeOver(genuine, a.Entry%len(genuine), pubNode(d.Cfg, atk, akind, 0), sb, wire.AlgFor(sb.Public(), pss && keys.IsRSA(sbkind)), atk, wire.AlgFor(atk.Public(), pss && keys.IsRSA(akind)), a.Tail)
+				if err != nil {
+					return nil
+				}
+				serveEntries, customEntries, delivered = forged, true, true
+				n := uint64(len(forged))
+				return &deploy.Action{Body: forge61(p, forge{num: &n, signer: atk, pss: pss && keys.IsRSA(akind), advKey: pubNode(d.Cfg, atk, akind, 0)})}
 			case "zero-entries":
 				// genuine header and HMAC, no entries, signed by (and advertising) a key the attacker holds
 				sk, skind := attackKey(d.Cfg, w, d.Chain, a.Signer)
@@ -586,6 +601,8 @@ func evalCase(d caseDesc) ev.Result {
 		cls = fmt.Sprintf("foreign-device/resigned=%v", a.Resigned)
 	case "zero-entries":
 		cls = "zero-entries/" + a.Signer
+	case "takeover":
+		cls = fmt.Sprintf("takeover/%s/%s", a.Signer, posClass(a.Entry%max(d.Chain, 1), d.Chain))
 	}
 	tag := fmt.Sprintf("%s/%s chain=%d to1d=%v reuse=%v", d.Cfg.Key, d.Cfg.Enc, d.Chain, d.To1d, d.Reuse)
 
@@ -654,7 +671,7 @@ var configs = func() []deploy.Config {
 }()
 
 func genAttack(t *rapid.T, chain int) attack {
-	kind := rapid.SampledFrom([]string{"mutate", "mutate", "mutate", "resign61", "resign-entry", "foreign-device", "foreign-mfg", "foreign-last-entry", "zero-entries", "entries", "to1d", "stale", "transport"}).Draw(t, "kind")
+	kind := rapid.SampledFrom([]string{"mutate", "mutate", "mutate", "resign61", "resign-entry", "foreign-device", "foreign-mfg", "foreign-last-entry", "zero-entries", "entries", "to1d", "stale", "transport", "takeover"}).Draw(t, "kind")
 	a := attack{Kind: kind}
 	switch kind {
 	case "mutate":
@@ -669,6 +686,10 @@ func genAttack(t *rapid.T, chain int) attack {
 		a.Swap = rapid.Bool().Draw(t, "swap")
 	case "foreign-device":
 		a.Resigned = rapid.Bool().Draw(t, "resigned")
+	case "takeover":
+		a.Entry = rapid.IntRange(0, chain-1).Draw(t, "entry")
+		a.Tail = rapid.IntRange(0, 2).Draw(t, "tail")
+		a.Signer = rapid.SampledFrom([]string{"stranger", "stranger", "earlier", "device", "mfg", "owner"}).Draw(t, "signer")
 	case "zero-entries":
 		a.Signer = rapid.SampledFrom([]string{"stranger", "earlier", "device", "owner"}).Draw(t, "signer")
 	case "entries":
@@ -683,11 +704,26 @@ func genAttack(t *rapid.T, chain int) attack {
 	return a
 }
 
+func posClass(p, n int) string {
+	switch {
+	case n == 1:
+		return "only-entry"
+	case p == 0:
+		return "first-entry"
+	case p == n-1:
+		return "last-entry"
+	}
+	return "middle-entry"
+}
+
 func genCase(t *rapid.T) caseDesc {
 	d := caseDesc{Cfg: rapid.SampledFrom(configs).Draw(t, "cfg"), Chain: rapid.IntRange(1, 3).Draw(t, "chain"), To1d: rapid.Bool().Draw(t, "to1d"), Reuse: rapid.IntRange(0, 3).Draw(t, "reuse") == 0}
 	d.Attack = genAttack(t, d.Chain)
 	if d.Attack.Kind == "to1d" {
 		d.To1d = true
+	}
+	if d.Attack.Kind == "takeover" {
+		d.To1d = false // the genuine owner's to1d would be refused for its own reason
 	}
 	return d
 }
